@@ -69,7 +69,9 @@ func (f *Recover) Call(s *slip.Scope, args slip.List, depth int) (result slip.Ob
 		}
 	}()
 	for i := 2; i < len(args); i++ {
-		result = slip.EvalArg(s, args, i, d2)
+		if result = slip.EvalArg(s, args, i, d2); slip.IsExit(result) {
+			break
+		}
 	}
 	return
 }
